@@ -328,8 +328,9 @@ func (s *LinearState) search(ctx *Context, pattern Map, lock bool) (*SearchResul
 	srs := SearchResults{}
 	srs.Found = make([]SearchResult, 0, 0)
 	if lock {
-		s.slock(ctx, true)
-		defer s.sunlock(ctx, true)
+		// Not a read lock: the scan purges the expired facts it comes across.
+		s.slock(ctx, false)
+		defer s.sunlock(ctx, false)
 	}
 	for id, rf := range s.Facts {
 		srs.Checked++
@@ -386,8 +387,9 @@ func (s *LinearState) FindRules(ctx *Context, event Map) (map[string]Map, error)
 }
 
 func (s *LinearState) doFindRules(ctx *Context, event Map) (map[string]Map, error) {
-	s.slock(ctx, true)
-	defer s.sunlock(ctx, true)
+	// Not a read lock: findRules purges the expired rules it comes across.
+	s.slock(ctx, false)
+	defer s.sunlock(ctx, false)
 	return s.findRules(ctx, event)
 }
 
@@ -462,8 +464,8 @@ func (s *LinearState) FindCachedRules(ctx *Context, event Map) (map[string]*Rule
 
 	// Keep the read lock until the cache has been consulted (and
 	// perhaps filled).  See IndexedState.FindCachedRules.
-	s.slock(ctx, true)
-	defer s.sunlock(ctx, true)
+	s.slock(ctx, false)
+	defer s.sunlock(ctx, false)
 
 	rules, err := s.findRules(ctx, event)
 	if err != nil {
@@ -557,13 +559,13 @@ func (s *LinearState) Get(ctx *Context, id string) (Map, error) {
 func (s *LinearState) get(ctx *Context, id string, getLock bool) (Map, error) {
 	Log(DEBUG, ctx, "LinearState.get", "name", s.Name, "id", id)
 
+	// A get purges the fact when it finds it expired, so it needs the
+	// write lock, and it needs it until that is done.
 	if getLock {
-		s.slock(ctx, true)
+		s.slock(ctx, false)
+		defer s.sunlock(ctx, false)
 	}
 	rf, found := s.Facts[id]
-	if getLock {
-		s.sunlock(ctx, true)
-	}
 
 	if !found {
 		return nil, NewNotFoundError("%s", id)
